@@ -57,6 +57,17 @@ func gen(tier string, seed int64) []mon.Case {
 			}
 		}
 	}
+	// telnet: the peer talks first (banner-like burst right after accept, inside the client's
+	// negotiation window, optionally after option negotiations), burst longer than the read size
+	for rep := 0; rep < reps; rep++ {
+		for _, e := range [][2]int{{1, 2}, {1, 300}, {81, 82}, {81, 300}, {81, 5000}, {8192, 8193}, {8192, 20000}} {
+			for _, neg := range []bool{false, true} {
+				for _, m := range modes {
+					add(Desc{Kind: "xfer", T: "telnet", ReadSize: e[0], Size: 700, Payload: "prng", Mode: m, Early: e[1], EarlyNeg: neg})
+				}
+			}
+		}
+	}
 	// unblock
 	ureps := 1
 	if tier == "thorough" {
@@ -67,6 +78,16 @@ func gen(tier string, seed int64) []mon.Case {
 			for _, how := range []string{"close", "peer-gone"} {
 				for _, rs := range []int{81, 8192} {
 					add(Desc{Kind: "unblock", T: t, How: how, ReadSize: rs})
+				}
+			}
+		}
+	}
+	// re-open cycles on one Transport object
+	for rep := 0; rep < ureps; rep++ {
+		for _, t := range []string{"system", "system-ssh", "standard-shell", "telnet"} {
+			for _, how := range []string{"close", "close-noforce"} {
+				for _, rs := range []int{81, 8192} {
+					add(Desc{Kind: "cycle", T: t, How: how, ReadSize: rs, Cycles: 3})
 				}
 			}
 		}
@@ -112,11 +133,13 @@ func init() {
 		Rule: "Transfers: {system and system-netconf (pty + raw-mode stand-in), standard shell+pty, standard netconf subsystem, telnet} x read sizes {1 (small payloads), 81, 8192, 65535} x " +
 			"payload sizes {1, rs-1, rs, rs+1, 4095, 4096, 4097, 65537 (every ordered byte pair), 1 MiB} in both directions, PRNG write chunking/pauses in " +
 			"duplex, lockstep and up-then-down schedules; every transfer ends with Close(true) against the blocked reader. Unblock cases: Close(true) and peer-gone " +
-			"for the same transports plus the system transport with the real ssh client. End-to-end: generated CLI and NETCONF (1.0/1.1) sessions over the real " +
+			"for the same transports plus the system transport with the real ssh client; re-open cycles (3 x Open/transfer/blocked read/Close on ONE Transport object, forced and " +
+			"unforced close; peer must see the end, the child must be gone). Telnet early bursts: the peer sends a burst longer than the read size right after accept (inside the " +
+			"negotiation window, with/without option negotiations). End-to-end: generated CLI and NETCONF (1.0/1.1) sessions over the real " +
 			"transports vs the ideal devsim pipe. Non-trivial = payload larger than the read size, or an unblock case, or an end-to-end differential. Distinct = distinct descriptor.",
 		Assumptions: []string{
 			"loopback TCP, ptys and the OpenSSH client (`ssh` on PATH) work offline; the stand-in process puts its tty into raw mode before it announces readiness, so the pty applies no line discipline",
-			"'after the session is up' = after Transport.Open returned and (system) the stand-in's readiness marker was read; telnet negotiation is empty and the peer sends nothing during the negotiation window",
+			"'after the session is up' = after Transport.Open returned and (system) the stand-in's readiness marker was read; in the plain telnet transfers the negotiation is empty and the peer sends nothing during the negotiation window; in the early-burst variant the burst (no 0xff byte) is part of what reads must return",
 			"with the real ssh client the escape character is disabled (-e none) for raw links; end-to-end sessions never start a line with '~'",
 			"end-to-end generators: every command ends in a byte that occurs nowhere else, no output line prefix matches the prompt pattern (checked by brute force), no CR/tab inside NETCONF payloads, request lines shorter than the tty's canonical-mode limit (4095 bytes)",
 			"loss is judged only after 20 s without progress while the load canary is healthy; otherwise inconclusive",
@@ -131,6 +154,8 @@ func init() {
 				return runXfer(d)
 			case "unblock":
 				return runUnblock(d)
+			case "cycle":
+				return runCycle(d)
 			case "e2e-cli":
 				return runE2ECLI(d)
 			case "e2e-netconf":
